@@ -135,7 +135,7 @@ def parsePortCfg (s : String) : Option (List (Nat × Port)) :=
 def handlePort (line : String) : String :=
   let (req, res) := splitOnce line "=>"
   let (gres, gout) := splitOnce res "|"
-  match words req with
+  match (words req).take 4 with
   | [_, ios, cfgS, codeS] =>
     let parsed : Option (Byte × List (Nat × Port) × List Nat) := do
       some (← parseByte ios, ← parsePortCfg cfgS, ← unhex codeS)
